@@ -1770,6 +1770,130 @@ theorem parse_delimited (S : Schema) (sks : List String) (bs : Bytes)
       exact hspec)
     simpa using this
 
+/-! ### wrapped FASTA: grouping the lines into records -/
+
+/-- the lines of a FASTA text given its records: header line (marker ++ name), then the record's sequence lines -/
+def fastaSer (marker : Nat) (es : List (Bytes × List Bytes)) : List Bytes :=
+  es.flatMap (fun e => (marker :: e.1) :: e.2)
+
+def offs : Nat → List (Bytes × List Bytes) → List Nat
+  | _, [] => []
+  | k, e :: es => k :: offs (k + 1 + e.2.length) es
+
+def totalLines (es : List (Bytes × List Bytes)) : Nat := (es.map (fun e => 1 + e.2.length)).sum
+
+theorem headerIdx_skip (m k : Nat) (body rest : List Bytes) (hb : ∀ l ∈ body, l.head? ≠ some m) :
+    headerIdx m k (body ++ rest) = headerIdx m (k + body.length) rest := by
+  induction body generalizing k with
+  | nil => simp
+  | cons l ls ih =>
+    simp only [List.cons_append, headerIdx, hb l (by simp), if_false, List.length_cons]
+    rw [ih (k + 1) (fun l' hl' => hb l' (by simp [hl']))]
+    congr 1; omega
+
+theorem headerIdx_ser (m k : Nat) (es : List (Bytes × List Bytes)) (hb : ∀ e ∈ es, ∀ l ∈ e.2, l.head? ≠ some m) :
+    headerIdx m k (fastaSer m es) = offs k es := by
+  induction es generalizing k with
+  | nil => rfl
+  | cons e rest ih =>
+    simp only [fastaSer, List.flatMap_cons, List.cons_append, headerIdx, List.head?_cons, if_true, offs]
+    rw [headerIdx_skip m (k + 1) e.2 _ (hb e (by simp))]
+    have := ih (k + 1 + e.2.length) (fun e' he' => hb e' (by simp [he']))
+    simp only [fastaSer] at this
+    rw [this]
+
+theorem length_ser (m : Nat) (es : List (Bytes × List Bytes)) : (fastaSer m es).length = totalLines es := by
+  induction es with
+  | nil => rfl
+  | cons e rest ih =>
+    simp only [fastaSer, List.flatMap_cons, List.length_append, List.length_cons, totalLines, List.map_cons, List.sum_cons] at ih ⊢
+    rw [ih]; omega
+
+theorem head_offs (k : Nat) (es : List (Bytes × List Bytes)) (x : Nat) :
+    (offs k es ++ [x]).head? = some (if es = [] then x else k) := by
+  cases es <;> simp [offs]
+
+theorem nLines_offs (k : Nat) (es : List (Bytes × List Bytes)) :
+    (List.zip (offs k es ++ [k + totalLines es]) ((offs k es ++ [k + totalLines es]).drop 1)).map (fun ab => ab.2 - ab.1 - 1)
+      = es.map (fun e => e.2.length) := by
+  induction es generalizing k with
+  | nil => simp [offs]
+  | cons e rest ih =>
+    have hk : k + totalLines (e :: rest) = (k + 1 + e.2.length) + totalLines rest := by
+      simp [totalLines]; omega
+    simp only [offs, List.cons_append, List.drop_succ_cons, List.drop_zero, hk]
+    have hh := head_offs (k + 1 + e.2.length) rest (k + 1 + e.2.length + totalLines rest)
+    cases hrest : offs (k + 1 + e.2.length) rest ++ [k + 1 + e.2.length + totalLines rest] with
+    | nil => simp at hrest
+    | cons y ys =>
+      rw [hrest] at hh
+      simp only [List.head?_cons, Option.some.injEq] at hh
+      have hy : y = k + 1 + e.2.length := by
+        rw [hh]
+        split
+        · rename_i h; subst h; simp [totalLines]
+        · rfl
+      have := ih (k + 1 + e.2.length)
+      rw [hrest] at this
+      simp only [List.zip_cons_cons, List.map_cons, List.drop_succ_cons, List.drop_zero] at this ⊢
+      rw [this, hy]
+      simp
+      omega
+
+theorem filter_ser_headers (m : Nat) (es : List (Bytes × List Bytes)) (hb : ∀ e ∈ es, ∀ l ∈ e.2, l.head? ≠ some m) :
+    (fastaSer m es).filter (fun l => l.head? = some m) = es.map (fun e => m :: e.1) ∧
+    (fastaSer m es).filter (fun l => !(decide (l.head? = some m))) = (es.map (·.2)).flatten := by
+  induction es with
+  | nil => simp [fastaSer]
+  | cons e rest ih =>
+    have ih' := ih (fun e' he' => hb e' (by simp [he']))
+    have hbody1 : e.2.filter (fun l => l.head? = some m) = [] :=
+      List.filter_eq_nil_iff.mpr (fun l hl => by simpa using hb e (by simp) l hl)
+    have hbody2 : e.2.filter (fun l => !(decide (l.head? = some m))) = e.2 :=
+      List.filter_eq_self.mpr (fun l hl => by simpa using hb e (by simp) l hl)
+    simp only [fastaSer, List.flatMap_cons, List.cons_append, List.filter_cons, List.head?_cons, List.filter_append] at ih' ⊢
+    simp [hbody1, hbody2, ih'.1, ih'.2]
+
+theorem unflatten_map_flatten {α} (ls : List (List (List α))) :
+    unflatten (ls.map (fun b => b.flatten.length)) (ls.map List.flatten).flatten = ls.map List.flatten := by
+  have := unflatten_flatten (ls.map List.flatten)
+  simpa [List.map_map, Function.comp_def] using this
+
+/-- **fasta_wrapped_join.** For every list of records — any name, any number of sequence lines per record including
+none, lines of any (unequal) widths — the reader's grouping of the lines of the text (header positions → lines per
+record → cumulative line lengths → one cut of the flat sequence text) returns each record's name and the
+concatenation of exactly its own sequence lines. -/
+theorem fasta_wrapped_join (m : Nat) (es : List (Bytes × List Bytes))
+    (hb : ∀ e ∈ es, ∀ l ∈ e.2, l.head? ≠ some m) :
+    fastaGroup m (fastaSer m es) = (es.map (·.1), es.map (fun e => e.2.flatten)) := by
+  unfold fastaGroup
+  simp only
+  obtain ⟨hf1, hf2⟩ := filter_ser_headers m es hb
+  have hf2' : (fastaSer m es).filter (fun l => !(decide (l.head? = some m))) = (es.map (·.2)).flatten := hf2
+  rw [hf1, hf2', headerIdx_ser m 0 es hb, length_ser]
+  have hn := nLines_offs 0 es
+  simp only [Nat.zero_add] at hn
+  rw [hn]
+  have hsum : (es.map (fun e => e.2.length)).sum ≤ ((es.map (·.2)).flatten.map List.length).length := by
+    simp [List.length_flatten, List.map_map, Function.comp_def]
+  rw [fasta_seqLens _ _ hsum]
+  have hlens : (unflatten (es.map (fun e => e.2.length)) ((es.map (·.2)).flatten.map List.length)).map List.sum
+      = es.map (fun e => e.2.flatten.length) := by
+    have h1 : (es.map (·.2)).flatten.map List.length = ((es.map (·.2)).map (fun b => b.map List.length)).flatten := by
+      simp [List.map_flatten]
+    have h2 : es.map (fun e => e.2.length) = ((es.map (·.2)).map (fun b => b.map List.length)).map List.length := by
+      simp [List.map_map, Function.comp_def]
+    rw [h1, h2, unflatten_flatten]
+    simp [List.map_map, Function.comp_def, List.length_flatten]
+  rw [hlens]
+  have := unflatten_map_flatten (es.map (·.2))
+  simp only [List.map_map, Function.comp_def] at this
+  rw [List.flatten_flatten]
+  have e2 : List.map List.flatten (List.map (fun x : Bytes × List Bytes => x.2) es) = List.map (fun x => x.2.flatten) es := by
+    simp [List.map_map, Function.comp_def]
+  rw [e2, this]
+  simp [List.map_map, Function.comp_def]
+
 /-! ### SAM: eleven fixed columns and the rest of the line -/
 
 theorem delimsFrom_append (isD : Nat → Bool) (k : Nat) (a b : Bytes) :
@@ -2134,5 +2258,9 @@ example : (∀ l ∈ linesOf [99,9,49,13,10,100,9,50,50,13,10], l.getLast? = som
 -- sam_extra: "a\tb\tc" has 3 ≥ k = 2 fields and no newline
 example : 10 ∉ [97, 9, 98, 9, 99] ∧ 2 ≤ (splitOn 9 [97, 9, 98, 9, 99]).length := by decide
 example : infoLookup [68, 80] [[68, 66], [68, 80, 61, 53], [65, 70, 61, 49]] = some [53] := by decide
+
+-- fasta_wrapped_join: records a:[AC,G], b:[] (no sequence line), c:[T]
+example : fastaGroup 62 (fastaSer 62 [([97], [[65, 67], [71]]), ([98], []), ([99], [[84]])])
+    = ([[97], [98], [99]], [[65, 67, 71], [], [84]]) := by decide
 
 end C02
